@@ -68,7 +68,7 @@ SPECIAL_BODIES = ['', 'var a = "<div>"; if (a < b) {}', '</div><p>', '<!-- x -->
 
 
 def gen_elem(rng, depth, w, recs, parent, xml, max_depth=4, max_children=3):
-    kind = rng.choice(['pair', 'pair', 'pair', 'pair', 'void', 'self', 'special', 'tscript'])
+    kind = rng.choice(['pair', 'pair', 'pair', 'pair', 'void', 'self', 'special', 'tscript'] if max_depth <= 5 else ['pair'] * 9 + ['void', 'self', 'special', 'tscript'])
     if depth >= max_depth and kind in ('pair', 'tscript'):
         kind = rng.choice(['self', 'void', 'pair0'])
     if kind == 'void':
